@@ -80,6 +80,18 @@ def run(chk):
         b = [rng.choice("ABCDE") for _ in range(rng.randint(1, 7))]
         expect({"op": "pc2", "as": a, "bs": b}, lambda a=a, b=b: float(st.pc(a, b)), "pc2", {"a": a, "b": b}, bool(set(a) & set(b)))
 
+    # two samples whose NumPy dtypes differ: longer strings / floats in the second sample must not be cut to the first one's dtype
+    for _ in range(30 if not thorough else 300):
+        a = [rng.choice(["CAS", "CAT", "CA", "C"]) for _ in range(rng.randint(1, 6))]
+        b = [rng.choice(["CASS", "CASSL", "CATT", "CAS", "CAQQQQQQ"]) for _ in range(rng.randint(1, 6))]
+        for x, y in ((a, b), (b, a), (np.array(a), np.array(b))):
+            expect({"op": "pc2", "as": list(map(str, x)), "bs": list(map(str, y))}, lambda x=x, y=y: float(st.pc(x, y)), "pc2[width]",
+                   {"a": list(map(str, x)), "b": list(map(str, y))}, bool(set(map(str, x)) & set(map(str, y))))
+        ia = [rng.choice([1, 2, 3]) for _ in range(rng.randint(1, 5))]
+        fb = [rng.choice([1.0, 1.5, 2.25, 2.75, 7.0]) for _ in range(rng.randint(1, 5))]
+        for x, y in ((ia, fb), (fb, ia)):
+            expect({"op": "pc2", "as": [repr(float(v)) for v in x], "bs": [repr(float(v)) for v in y]}, lambda x=x, y=y: float(st.pc(x, y)),
+                   "pc2[int-vs-float]", {"a": x, "b": y}, True)
     # ---- tables
     def cell_json(v):
         return None if v is None or (isinstance(v, float) and np.isnan(v)) else str(v)
@@ -121,6 +133,8 @@ def run(chk):
         jrows2 = [[cell_json(v) for v in r] for r in rows2]
         expect({"op": "pc_table", "rows": jrows, "rows2": jrows2}, lambda d=df, e=df2: float(st.pc(d, e)), "pc2[table]",
                {"rows": jrows, "rows2": jrows2}, True)
+        expect({"op": "pc_joint", "rows": jrows, "rows2": jrows2, "sep": "|"},
+               lambda d=df, e=df2, w=w: float(st.pc_joint(d, cols[:w], e, "|")), "pc_joint2[gap_token]", {"rows": jrows, "rows2": jrows2}, True)
         hm2 = has_missing or any(c is None for r in jrows2 for c in r)
         expect({"op": "pc_joint", "rows": jrows, "rows2": jrows2, "sep": "_"},
                lambda d=df, e=df2, w=w: float(st.pc_joint(d, cols[:w], e)), "pc_joint2" + ("[missing-cell]" if hm2 else ""),
